@@ -2,7 +2,7 @@ from vp.core import Query
 from vp.skel import KIT_RULES
 
 LEVEL = "model_checking"
-UNITS = ["src/sp/transport/tcp/tcp.c", "src/sp/transport/socket/sockfd.c", "src/sp/transport/ipc/ipc.c", "src/core/aio.c (nni_aio_iov_advance/count/set_iov)", "src/supplemental/websocket/websocket.c (ws_frame_prep_tx, ws_mask_frame, ws_read_finish)", "src/core/message.c (nni_chunk_insert: inproc header pull-up)", "src/supplemental/http/http_conn.c (http_rd_buf, http_rd_cb, http_wr_cb: the byte stream under websocket frames)"]
+UNITS = ["src/sp/transport/tcp/tcp.c", "src/sp/transport/socket/sockfd.c", "src/sp/transport/ipc/ipc.c", "src/core/aio.c (nni_aio_iov_advance/count/set_iov)", "src/supplemental/websocket/websocket.c (ws_frame_prep_tx, ws_mask_frame, ws_read_finish)", "src/core/message.c (nni_chunk_insert: inproc header pull-up)", "src/sp/transport/inproc/inproc.c (pipe send/recv/close, queue_run, cancel)", "src/supplemental/http/http_conn.c (http_rd_buf, http_rd_cb, http_wr_cb: the byte stream under websocket frames)"]
 RULE = "Inductive steps over the framing invariant: one query per (transport, step, concrete header/body size); transfer size n, all length values, RECVMAXSZ, payload and handshake bytes symbolic."
 BOUNDS = "protocol header 0..64 bytes (concrete 0,4,8,64), body 0..3 bytes on transmit / 1..3 on receive, one partial transfer of ANY size followed by completion"
 OUTSIDE = "kernel/epoll behaviour, TLS, websocket frame header decoding (C16), inproc hand-off other than the header insert; the induction from one step to all segmentations is argued in DESIGN.md"
@@ -41,6 +41,17 @@ def queries(tier):
     for nio in (1, 2, 3):
         qs.append(Query("iov-advance-nio%d" % nio, "c01/iov.c", tus=["core/list.c"], env=["env_alloc.c", "env_misc.c", "env_sync.c"], defs={"NIO": nio},
                         unwind=12, timeout=300, params={"kernel": "real nni_aio_iov_advance/iov_count", "segments": nio}))
+    # inproc: the hand-off between the two ends of a connection
+    IENV = ["env_alloc.c", "env_misc.c", "env_sync.c", "env_aio.c", "env_msg.c", "env_pipe.c", "env_libc.c"]
+    iwords = ["S(0) R(1) C", "R(0) S(1) C", "S(0) S(1) R(2) R(3) C", "R(0) R(1) S(2) S(3) C", "S(0) R(1) S(2) R(3) C", "S(0) X(0) R(1) S(2) C", "R(0) X(0) S(1) R(2) C",
+              "S(0) C", "R(0) C", "S(0) S(1) X(0) R(2) C", "SH(0) R(1) C", "R(0) SH(1) C", "SF(0) R(1) S(2) C", "R(0) SF(1) S(2) C", "S(0) S(1) C R(2)", "R(0) R(1) X(1) S(2) S(3)"]
+    for hl in ((0, 4, 64) if tier == "quick" else (0, 4, 8, 32, 64)):
+        for w in iwords:
+            if hl == 64 and tier == "quick" and len(w) > 12:
+                continue
+            qs.append(Query("inproc-h%d-%s" % (hl, w.replace(" ", "").replace("(", "").replace(")", "")), "c01/inproc.c", tus=["core/list.c"], env=IENV,
+                            defs={"HL": hl, "SKEL": w}, cdefs=["-DENV_MSG_CAP=8"], unwind=12, unwind_rules=KIT_RULES + [(r"^(post_send|check_delivery|note_)", r".", 72)], timeout=300, group="c01/inproc.c",
+                            params={"transport": "inproc", "header": hl, "skeleton": w}))
     # websocket framing of SP messages: the frame writer and the reassembly kernel of C16
     from props import C16
     for q in C16.queries(tier):
